@@ -776,6 +776,47 @@ def r1_constructor_range(program, folder, rep):
                             "these rules do not read")
 
 
+def r2_length_guards(program, folder, rep):
+    """A 'too short' test in front of the decoder may refuse only datagrams
+    shorter than the header it is about to decode: one with an empty payload
+    (SDP: 10 bytes; SCP: 14, cmd_rc and seq included) is a whole packet."""
+    n = 0
+    for q, need in (("SDPPacket.from_bytestring", 10),
+                    ("SCPPacket.from_bytestring", 14)):
+        fn = program.get(MOD + ":" + q)
+        if not raises_in(fn):
+            continue
+        T = Terms(fn)
+        const_of = _folder_const(folder, fn._module)
+        for r in raises_in(fn):
+            rn = T.cfg.node_of(r)
+            for t, p in T.all_facts(rn):
+                t = plain(t)
+                if not (p and t[0] == "cmp" and t[1] in ("Lt", "LtE") and
+                        t[2][0] == "call" and t[2][1] == ("global", "len")
+                        and len(t[2][2]) == 1 and
+                        t[2][2][0][0] == "param"):
+                    continue
+                k = const_of(reify(t[3]))
+                if not isinstance(k, int):
+                    continue
+                # raised when len < k (Lt) / len <= k (LtE)
+                shortest_ok = k if t[1] == "Lt" else k + 1
+                n += 1
+                rep.check(shortest_ok <= need, "C15-R2", qual(fn),
+                          "a datagram of %d bytes (whole header, empty "
+                          "payload) is decoded, not refused" % need,
+                          construct="shortest datagram accepted %d" %
+                          shortest_ok, node=r,
+                          fail="%s refuses datagrams shorter than %d bytes, "
+                               "but a whole packet with an empty payload "
+                               "is %d bytes long: valid packets can no "
+                               "longer be decoded" % (q, shortest_ok, need))
+    if n == 0:
+        rep.ok("C15-R2", MOD, "no length guard refuses a datagram before "
+               "it is decoded")
+
+
 def raises_in(fn):
     return [r for r in ast.walk(fn) if isinstance(r, ast.Raise)]
 
@@ -818,6 +859,7 @@ def check(program, rep):
     program.module(MOD)
     folder = Folder(program)
     rep.guard("C15-R1", r1_constructor_range, program, folder, rep)
+    rep.guard("C15-R2", r2_length_guards, program, folder, rep)
     res = rep.guard("C15-R1", r1_encoder, program, folder, rep)
     rep.guard("C15-R1", r1_forwarding, program, rep)
     if res:
